@@ -532,13 +532,15 @@ impl<'p> ObjectData<'p> {
 
     pub(super) fn get_fields_order(&self) -> &[(InternedStr<'p>, ast::Visibility)] {
         enum FieldState {
-            Normal(ast::Visibility),
+            // Visibility and, while it is still the default one, the last
+            // layer hidden by a removal marker found below the field.
+            Normal(ast::Visibility, usize),
             Removed(usize),
         }
 
         fn field_to_state(field: &ObjectField<'_>, layer_i: usize) -> FieldState {
             match field {
-                ObjectField::Normal(data) => FieldState::Normal(data.visibility),
+                ObjectField::Normal(data) => FieldState::Normal(data.visibility, 0),
                 ObjectField::Removed(depth) => FieldState::Removed(layer_i + *depth),
             }
         }
@@ -561,12 +563,19 @@ impl<'p> ObjectData<'p> {
                         std::collections::btree_map::Entry::Occupied(mut entry) => {
                             let entry = entry.get_mut();
                             match entry {
-                                FieldState::Normal(ast::Visibility::Default) => {
-                                    if let ObjectField::Normal(f) = f {
-                                        *entry = FieldState::Normal(f.visibility);
+                                FieldState::Normal(ast::Visibility::Default, skip_until) => {
+                                    if layer_i > *skip_until {
+                                        match f {
+                                            ObjectField::Normal(f) => {
+                                                *entry = FieldState::Normal(f.visibility, 0);
+                                            }
+                                            ObjectField::Removed(depth) => {
+                                                *skip_until = layer_i + *depth;
+                                            }
+                                        }
                                     }
                                 }
-                                FieldState::Normal(_) => {}
+                                FieldState::Normal(..) => {}
                                 FieldState::Removed(removed_layer_i) => {
                                     if layer_i > *removed_layer_i {
                                         *entry = field_to_state(f, layer_i);
@@ -580,7 +589,7 @@ impl<'p> ObjectData<'p> {
             all_fields
                 .into_iter()
                 .filter_map(|(n, f)| match f {
-                    FieldState::Normal(vis) => Some((n.0, vis)),
+                    FieldState::Normal(vis, _) => Some((n.0, vis)),
                     FieldState::Removed(_) => None,
                 })
                 .collect()
